@@ -679,7 +679,17 @@ func (p *Prog) sxNWith(fn ast.Node, n interface{}, extra func(ast.Node) (string,
 	roles := p.localNames(fn, fn) // receiver/params/results; locals are renumbered below
 	info := p.infoAt(fn)
 	seen := map[types.Object]string{}
-	inFn := func(o types.Object) bool { return o.Pos() >= fn.Pos() && o.Pos() <= fn.End() }
+	inFn := func(o types.Object) bool {
+		if o.Pos() >= fn.Pos() && o.Pos() <= fn.End() {
+			return true
+		}
+		for _, r := range p.inlRanges { // a local of a helper whose body was virtually inlined into (the function around) fn
+			if o.Pos() >= r.bodyPos && o.Pos() <= r.bodyEnd && r.hostPos <= fn.Pos() && fn.End() <= r.hostEnd {
+				return true
+			}
+		}
+		return false
+	}
 	return sxWith(n, func(x ast.Node) (string, bool) {
 		if extra != nil {
 			if s, ok := extra(x); ok {
@@ -976,4 +986,124 @@ func (p *Prog) retPaths(list []ast.Stmt) ([]retPath, bool) {
 		done = append(done, retPath{o.conds, o.stmts, nil, "fall"})
 	}
 	return done, ok
+}
+
+// ---------- loop abstraction ----------
+
+// absLoop is a loop over the elements of one sequence, whichever way it is written:
+//
+//	for i, e := range X            for _, e := range X          for i := range X
+//	for i := k; i < len(X); i++    for i := k; i < n; i++  (n := len(X))
+//
+// seq is X with a single-assignment temporary resolved (`tmp := f(y); for .. range tmp` has seq f(y)).
+type absLoop struct {
+	stmt      ast.Stmt
+	seq       ast.Expr
+	seqRaw    ast.Expr
+	body      *ast.BlockStmt
+	idx, elem types.Object
+	start     ast.Expr // nil: starts at element 0
+}
+
+func (p *Prog) absLoops(body ast.Node, defs map[types.Object]ast.Expr) []absLoop {
+	resolve := func(e ast.Expr) ast.Expr {
+		for d := 0; d < 4; d++ {
+			id, ok := unparen(e).(*ast.Ident)
+			if !ok {
+				break
+			}
+			def, ok := defs[p.objOf(id)]
+			if !ok {
+				break
+			}
+			e = def
+		}
+		return e
+	}
+	var out []absLoop
+	inspectNoLit(body, func(x ast.Node) bool {
+		switch s := x.(type) {
+		case *ast.RangeStmt:
+			l := absLoop{stmt: s, seqRaw: s.X, seq: resolve(s.X), body: s.Body}
+			// `range X[k:]` starts at k
+			if se, ok := unparen(l.seq).(*ast.SliceExpr); ok && se.High == nil && se.Max == nil && se.Low != nil {
+				l.start, l.seq, l.seqRaw = se.Low, resolve(se.X), se.X
+				// the index variable then counts from 0: not an index into X
+			} else if s.Key != nil {
+				if id, ok := s.Key.(*ast.Ident); ok && id.Name != "_" {
+					l.idx = p.objOf(id)
+				}
+			}
+			if s.Value != nil {
+				if id, ok := s.Value.(*ast.Ident); ok && id.Name != "_" {
+					l.elem = p.objOf(id)
+				}
+			}
+			out = append(out, l)
+		case *ast.ForStmt:
+			init, ok1 := s.Init.(*ast.AssignStmt)
+			cond, ok2 := s.Cond.(*ast.BinaryExpr)
+			post, ok3 := s.Post.(*ast.IncDecStmt)
+			if !ok1 || !ok2 || !ok3 || cond.Op != token.LSS || post.Tok != token.INC || len(init.Lhs) != 1 || len(init.Rhs) != 1 {
+				return true
+			}
+			iv := p.objOf(init.Lhs[0])
+			if iv == nil || p.objOf(cond.X) != iv || p.objOf(post.X) != iv {
+				return true
+			}
+			bound := resolve(cond.Y)
+			ce, ok := unparen(bound).(*ast.CallExpr)
+			if !ok || p.calleeName(ce) != "builtin.len" || len(ce.Args) != 1 {
+				return true
+			}
+			l := absLoop{stmt: s, seqRaw: ce.Args[0], seq: resolve(ce.Args[0]), body: s.Body, idx: iv}
+			if v := p.constOf(init.Rhs[0]); v == nil || constant.Sign(v) != 0 {
+				l.start = init.Rhs[0]
+			}
+			out = append(out, l)
+		}
+		return true
+	})
+	return out
+}
+
+// isElem: e denotes the current element of the loop (the element variable, or seq[idx]).
+func (l absLoop) isElem(p *Prog, e ast.Expr) bool {
+	e = unparen(e)
+	if id, ok := e.(*ast.Ident); ok {
+		return l.elem != nil && p.objOf(id) == l.elem
+	}
+	if ix, ok := e.(*ast.IndexExpr); ok && l.idx != nil {
+		if id, ok := unparen(ix.Index).(*ast.Ident); ok && p.objOf(id) == l.idx {
+			return sx(ix.X) == sx(l.seqRaw) || sx(ix.X) == sx(l.seq)
+		}
+	}
+	return false
+}
+
+// startsAt reports the constant first index of the loop (0 when no start is given).
+func (l absLoop) startsAt(p *Prog) (int64, bool) {
+	if l.start == nil {
+		return 0, true
+	}
+	if v := p.constOf(l.start); v != nil {
+		k, ok := constant.Int64Val(v)
+		return k, ok
+	}
+	return 0, false
+}
+
+// funcOf resolves an expression used as a function value to its syntax: a function literal, or the declaration of the
+// named function / method it denotes (nil otherwise). Rules that analyse "the function stored in a table" accept both.
+func (p *Prog) funcOf(e ast.Expr) (node ast.Node, ft *ast.FuncType, body *ast.BlockStmt) {
+	e = unparen(e)
+	if lit, ok := e.(*ast.FuncLit); ok {
+		return lit, lit.Type, lit.Body
+	}
+	if f, ok := p.objOf(e).(*types.Func); ok {
+		if fd := p.declOf(f); fd != nil && fd.Body != nil {
+			return fd, fd.Type, fd.Body
+		}
+	}
+	return nil, nil, nil
 }
